@@ -77,6 +77,7 @@ func timestamps() []time.Time {
 func main() {
 	flag.Parse()
 	r := ev.Start("C15")
+	defer r.RecoverMain()
 	defer world.Cleanup()
 	r.Assume("timestamps restricted to 1970..2262 (int64 nanoseconds), names over the documented safe alphabet",
 		"simpleblob listings are sorted byte-wise (contract of simpleblob.BlobList.Sort)")
